@@ -96,7 +96,7 @@ def check(run: Run) -> None:
             raise AnalysisError("C16: the tail of solve_for_vector (after the missing-unknown refusal) was not found")
     tail = body[start:]
     R = PyReader(mod.tree, where="solve_for_vector tail")
-    for N in (range(1, 5) if tail else ()):
+    for N in (range(1, 8 if run.tier == "thorough" else 5) if tail else ()):
         for i in range(N):
             for reduce_factor in (True, False):
                 vs = [var(f"v{k}") for k in range(N)]
